@@ -23,6 +23,7 @@ import (
 	"sort"
 	"strings"
 	"testing"
+	"time"
 
 	"golang.org/x/crypto/hkdf"
 	"pgregory.net/rapid"
@@ -578,7 +579,7 @@ func TestVerif_C46_Wallet(t *testing.T) {
 		"(generate, import random/next/two-ahead/duplicate/forged-public-half keys, delete/export/export-MDK/rename/check-password/init with right and wrong passwords, close and re-fetch), then a restore from the exported MDK; " +
 		"non-trivial = at least 3 generated keys, at least one generation that had to skip an imported key or one deleted generated key, at least 3 wrong-password rejections and 3 right-password successes; distinct by history")
 	vk.Assume("scrypt runs with N=2,r=1,p=1 (UnsafeScrypt only lifts the parameter floor); crypto/ed25519, x/crypto/hkdf and SHA-512/256 are the reference for the derivation")
-	base := t.TempDir()
+	base := c46TempBase(t)
 	rapid.Check(t, func(rt *rapid.T) {
 		dir, err := os.MkdirTemp(base, "c46-")
 		if err != nil {
@@ -763,4 +764,27 @@ func TestVerif_C46_Wallet(t *testing.T) {
 			vk.Sample(nt, map[string]interface{}{"history": w.hist, "generated_indices": m.genIdx, "keys_at_end": len(m.keys)})
 		}
 	})
+}
+
+// c46TempBase returns a scratch directory, on a RAM-backed file system when there is one (the stores fsync on every
+// commit / open; on a loaded machine that dominates the run time). Removed at the end of the test; stale directories of
+// killed runs are swept.
+func c46TempBase(t *testing.T) string {
+	const shm = "/dev/shm"
+	if st, err := os.Stat(shm); err == nil && st.IsDir() {
+		if ents, err := os.ReadDir(shm); err == nil {
+			for _, e := range ents {
+				if strings.HasPrefix(e.Name(), "verif-c46-") {
+					if fi, err := e.Info(); err == nil && time.Since(fi.ModTime()) > 2*time.Hour {
+						os.RemoveAll(shm + "/" + e.Name())
+					}
+				}
+			}
+		}
+		if d, err := os.MkdirTemp(shm, "verif-c46-"); err == nil {
+			t.Cleanup(func() { os.RemoveAll(d) })
+			return d
+		}
+	}
+	return t.TempDir()
 }
